@@ -303,9 +303,16 @@ func Worker(prop string, st Step, k, K, start, seed int, curFile string, out *bu
 	nf := 0
 	samples := 0
 	if ct, ok := CaseTiers[st.Tier]; ok {
+		if strings.HasPrefix(st.Tier, "graph-") {
+			// a legitimate graph operation on <= 5 vertices takes a few hundred steps
+			verifrt.MaxSteps = 50000
+		}
 		ct.Run(st, func(i int) bool {
 			if (i+seed)%K != k || i < start {
 				return false
+			}
+			if nf >= maxFindingsPerWorker {
+				return false // the check has failed many times over: stop exploring
 			}
 			cf.WriteAt([]byte(fmt.Sprintf("%-12d", i)), 0)
 			return true
@@ -330,6 +337,9 @@ func Worker(prop string, st Step, k, K, start, seed int, curFile string, out *bu
 		if (idx+seed)%K != k || idx < start {
 			return
 		}
+		if nf >= maxFindingsPerWorker {
+			return // the check has failed many times over: stop exploring
+		}
 		cf.WriteAt([]byte(fmt.Sprintf("%-12d", idx)), 0)
 		ExploreScenario(prop, s, st, stats, func(r Replay) {
 			nf++
@@ -344,6 +354,9 @@ func Worker(prop string, st Step, k, K, start, seed int, curFile string, out *bu
 			enc.Encode(workerMsg{Kind: "X", Sample: s.String()})
 		}
 	})
+	if nf >= maxFindingsPerWorker {
+		stats.Classes["early_stop_shards"]++
+	}
 	stats.StepsSeen = verifrt.StepsSeen
 	stats.ActiveSeen = verifrt.ActiveSeen
 	for k, v := range verifrt.Grown {
@@ -352,6 +365,10 @@ func Worker(prop string, st Step, k, K, start, seed int, curFile string, out *bu
 	enc.Encode(workerMsg{Kind: "S", Stats: stats})
 	out.Flush()
 }
+
+// maxFindingsPerWorker: once a shard has produced this many findings the verdict is
+// settled; the remaining cases of the shard are skipped (reported as early_stop).
+const maxFindingsPerWorker = 200
 
 // caseSamples collects a few written-out cases of custom engines (evidence samples).
 var caseSamples []string
